@@ -121,6 +121,13 @@ def sites(rng, w, cfg, t, p, path, out, in_set=False, none_ok=False):
         return sites(rng, w, cfg, t[1], p, path, out, in_set, True)
     if k in WRAPS:
         return sites(rng, w, cfg, t[1], p, path, out, in_set, none_ok)
+    if k == "union":
+        # the union hook's decision function only takes mappings: a scalar is rejected with a bare exception, reported at
+        # the union position itself.  Edits *below* a union position may change the member chosen: outside the fault model.
+        if not in_set and p[0] in ("d", "N"):
+            out.append({"kind": "bad", "path": path, "v": rng.choice([("i", 7), ("f", 3)]), "in_set": False,
+                        "what": "scalar-for-union"})
+        return
     scalar = rng.choice([("i", 7), ("f", 3)] + ([] if none_ok else [("N",)]))
     if k in SEQ or k in SETS:
         if p[0] not in COLL_TAGS or t[1] == "any":
@@ -680,7 +687,7 @@ def case_types(chk, G, S, w, n_types):
 def worlds(chk, drv, n_worlds):
     """like streams.worlds; generator features that belong to other properties are normalised away: a bare `Final`
     attribute (dispatch on the class of the default) is spelled `Final[<that class>]`"""
-    G = gen.Gen(chk.rng, max_depth=4)
+    G = gen.Gen(chk.rng, max_depth=4, unions=True)
     made = attempts = 0
     while made < n_worlds and attempts < n_worlds * 3:
         attempts += 1
